@@ -6,23 +6,32 @@ PROPS = ['C02', 'C18', 'C01']
 
 
 def build(repo, findings):
-    u, interp = exec_unit('U4i', 'function-call boundary (tail of invoke_shell_function)', repo,
-                          ['CompoundCommand'], 'pub enum Node { Body(ast::CompoundCommand) }\n', props=('C02', 'C18'))
+    u, interp = exec_unit('U4i', 'function-call boundary (invoke_shell_function)', repo,
+                          ['CompoundCommand', 'IoRedirect', 'Word'], 'pub enum Node { Body(ast::CompoundCommand) }\n', props=('C02', 'C18'))
     cm = u.source('brush-core/src/commands.rs')
     rs = u.source('brush-core/src/results.rs')
     rs.require_text(r'pub enum ExecutionSpawnResult \{\s*(///[^\n]*\n\s*)*Completed\(ExecutionResult\),', 'projection ExecutionSpawnResult::Completed')
     cm.require_text(r"pub shell: &'a mut Shell<SE>,\s*(///[^\n]*\n\s*)*pub command_name: String,\s*(///[^\n]*\n\s*)*pub params: ExecutionParameters,", 'projection ExecutionContext')
+    astsrc = u.source('brush-parser/src/ast.rs')
     begin_ast(u)
+    u.add(astsrc.item(r'^pub struct FunctionDefinition ', 'FunctionDefinition').r1(keep_derive=()))
+    u.add(astsrc.item(r'^pub struct FunctionBody\(', 'FunctionBody').r1(keep_derive=()))
+    u.add(astsrc.item(r'^pub struct RedirectList\(', 'RedirectList').r1(keep_derive=()))
     end_ast(u, 'C02')
     u.prelude('exec/fntail_spec.rs')
     fr = rs.item(r'^impl From<ExecutionResult> for ExecutionSpawnResult ', 'From<ExecutionResult> for ExecutionSpawnResult').r1()
     fr.default_label = 'C02 spawn-result-wraps'
     u.add(fr)
-    fn = 'invoke_shell_function_tail'
-    f = cm.slice('invoke_shell_function', r'^\s*context\.shell\.enter_function\(', None,
-                 "fn invoke_shell_function_tail(function: functions::Registration, mut context: ExecutionContext<'_>, positional_args: PosArgs, body: &ast::CompoundCommand) -> Result<ExecutionSpawnResult, error::Error>", fn)
-    f.r1().r3()
+    fn = 'invoke_shell_function'
+    f = cm.item(r'^pub\(crate\) async fn invoke_shell_function\(', fn).r1().r3().r11()
+    f.replace("mut context: ExecutionContext<'_, impl extensions::ShellExtensions>,", "mut context: ExecutionContext<'_>,", 'R4', 'extension generic erased')
+    f.resub(r'let positional_args = args\.iter\(\)\.map\(\|a\| a\.to_string\(\)\);', 'let positional_args: PosArgs = vx_any();', 'R15', 'positional-argument iterator (closure) -> arbitrary value', count=None)
     f.resub(r'\berror::unimp\(', 'error_fns::unimp(', 'R4', 'path of the error helper (module stub is split in two in the generated file)', count=None)
+    f.before_loop(fn, 0, 'let ghost sh0 = *context.shell;\nlet ghost se0 = context.params.suppress_errexit;')
+    f.loop(0, fn_name=fn, iter_name='itr', invariant=[
+        C('aux redirects-leave-stacks-alone', 'context.shell.trace() == sh0.trace() && context.shell.frames() == sh0.frames() && context.shell.scopes() == sh0.scopes() && context.shell.leave_errs() == sh0.leave_errs() && context.params.suppress_errexit == se0'),
+        C('C18 definition-time-redirects-run-before-the-frame-is-pushed', '(sh0.trace() == old(context.shell).trace() && sh0.frames() == old(context.shell).frames() && sh0.scopes() == old(context.shell).scopes() && sh0.leave_errs() == old(context.shell).leave_errs())'),
+    ])
     f.sig(fn, ret='res', ensures=[
         C('C18 call-balanced', '''// on EVERY exit (Ok or Err, whatever the body did) both stacks are as deep as before, unless leave_function itself failed
 final(context.shell).leave_errs() == old(context.shell).leave_errs()
@@ -33,7 +42,7 @@ final(context.shell).leave_errs() == old(context.shell).leave_errs()
     let e = final(context.shell).trace().last();
     let r = res->Ok_0->Completed_0;
     &&& final(context.shell).trace() == old(context.shell).trace().push(e)
-    &&& e.node == Node::Body(*body) && e.ok && e.suppress == context.params.suppress_errexit
+    &&& e.node == Node::Body(function.def().body.0) && e.ok && e.suppress == context.params.suppress_errexit
     &&& r.exit_code == e.code
     &&& r.next_control_flow == call_boundary(e.cf)
     &&& !(e.cf is BreakLoop) && !(e.cf is ContinueLoop)
@@ -44,7 +53,7 @@ final(context.shell).leave_errs() == old(context.shell).leave_errs()
     ])
     u.add(f)
     u.raw(FOOTER)
-    u.assume('external_body', 'Shell::enter_function / leave_function carry ASSUMED depth contracts here (their bodies are verified against the same contracts in the call-stack unit when built); the function body is an abstract child assumed to leave call-stack and scope depth unchanged; error::unimp, Registration, PosArgs opaque')
+    u.assume('external_body', 'interp::setup_redirect (definition-time redirections) is a stub that touches neither stack; Shell::enter_function / leave_function carry ASSUMED depth contracts here (their bodies are verified against the same contracts in the call-stack unit when built); the function body is an abstract child assumed to leave call-stack and scope depth unchanged; error::unimp, Registration, PosArgs opaque')
     u.assume('uninterp', 'Shell::frames, Shell::scopes, Shell::leave_errs (ghost), Error::is_unimplemented')
     u.expected_min_fns = 16
     return u
